@@ -165,6 +165,8 @@ impl Search {
 
         #[cfg(rce_verif)]
         crate::rce_verif::point("search.before_bestmove");
+        // The answer is final from here on: a `go` that follows the bestmove must not be refused
+        self.stop();
         self.log(format!("bestmove {}", self.info.best_move.unwrap()).as_str());
         #[cfg(rce_verif)]
         crate::rce_verif::point("search.after_bestmove");
